@@ -570,6 +570,73 @@ def _tr_member_order(tree, cls, name):
     return f"Definition {name} (cmp : list order) : order :=\n  " + _order_chain(body[2:], cond, order_const) + "."
 
 
+# ---- sort_types (mro.py): what one comparison adds to the dependency graph; TypeMap.__missing__: the level of a round ----
+def tr_edge(tree):
+    """for i, t1 in enumerate(avail): for t2 in avail[i + 1:]: order = typeorder(t1, t2); if order is Order.X: deps[a].add(b) ...
+    -> edge_src (o : order) : option bool   (Some true: deps[t2].add(t1), Some false: deps[t1].add(t2), None: nothing)"""
+    fn = None
+    for n in tree.body:
+        if isinstance(n, ast.FunctionDef) and n.name == "sort_types":
+            fn = n
+    if fn is None:
+        raise Unsupported("sort_types not found")
+    outer = [st for st in fn.body if isinstance(st, ast.For) and ast.unparse(st.iter) == "enumerate(avail)" and ast.unparse(st.target) in ("(i, t1)", "i, t1")]
+    if len(outer) != 1:
+        raise Unsupported("outer loop over enumerate(avail)")
+    inner = [st for st in outer[0].body if isinstance(st, ast.For)]
+    if len(outer[0].body) != 1 or len(inner) != 1 or ast.unparse(inner[0].target) != "t2" or ast.unparse(inner[0].iter).replace(" ", "") != "avail[i+1:]":
+        raise Unsupported("inner loop over avail[i + 1:]")
+    body = [st for st in inner[0].body if not (isinstance(st, ast.Expr) and isinstance(st.value, ast.Constant))]
+    if not (len(body) == 2 and ast.unparse(body[0]) == "order = typeorder(t1, t2)" and isinstance(body[1], ast.If)):
+        raise Unsupported("loop body")
+    ACTIONS = {"deps[t2].add(t1)": "Some true", "deps[t1].add(t2)": "Some false"}
+
+    def cond(e):
+        if isinstance(e, ast.Compare) and len(e.ops) == 1 and ast.unparse(e.left) == "order":
+            c = order_const(e.comparators[0])
+            if isinstance(e.ops[0], (ast.Is, ast.Eq)):
+                return f"order_eqb o {c}"
+            if isinstance(e.ops[0], (ast.IsNot, ast.NotEq)):
+                return f"negb (order_eqb o {c})"
+        if isinstance(e, ast.BoolOp):
+            return "(" + (" && " if isinstance(e.op, ast.And) else " || ").join(cond(v) for v in e.values) + ")"
+        raise Unsupported("condition " + ast.unparse(e)[:60])
+
+    def go(b):
+        if not b:
+            return "None"
+        if len(b) == 1 and isinstance(b[0], ast.Expr) and ast.unparse(b[0]) in ACTIONS:
+            return ACTIONS[ast.unparse(b[0])]
+        if len(b) == 1 and isinstance(b[0], ast.Pass):
+            return "None"
+        if len(b) == 1 and isinstance(b[0], ast.If):
+            return f"(if {cond(b[0].test)} then {go(b[0].body)} else {go(b[0].orelse)})"
+        raise Unsupported("statement " + ast.unparse(b[0])[:60])
+    return "Definition edge_src (o : order) : option bool :=\n  " + go([body[1]]) + "."
+
+
+def tr_level(tree):
+    """groups = list(sort_types(obj_t, self.types)); for lvl, grp in enumerate(reversed(groups)): ... {h: lvl for h in handlers}
+    -> level_index_src (nr r : nat) : nat   (r: index of the round in the order sort_types yields them, nr: their number)"""
+    fn = _find(tree, "TypeMap", "__missing__")
+    srcs = [ast.unparse(st) for st in fn.body]
+    if "groups = list(sort_types(obj_t, self.types))" not in srcs:
+        raise Unsupported("groups = list(sort_types(...)) not found")
+    loops = [st for st in fn.body if isinstance(st, ast.For) and ast.unparse(st.target) in ("(lvl, grp)", "lvl, grp")]
+    if len(loops) != 1:
+        raise Unsupported("loop over the rounds")
+    it = ast.unparse(loops[0].iter)
+    if "{h: lvl for h in handlers}" not in ast.unparse(loops[0]):
+        raise Unsupported("the level stored is not lvl")
+    if it == "enumerate(reversed(groups))":
+        expr = "nr - 1 - r"
+    elif it == "enumerate(groups)":
+        expr = "r"
+    else:
+        raise Unsupported("iteration " + it)
+    return f"Definition level_index_src (nr r : nat) : nat := {expr}."
+
+
 HEADER = """(* GENERATED by vlib/translator/leaf.py from /repo/src/ovld/{mro,typemap,dependent,types}.py on every run -- do not edit.
    Proofs/LeafAgree.v proves these equal to the hand-written definitions the model uses. *)
 From Coq Require Import ZArith List Bool Arith.
@@ -595,6 +662,8 @@ FALLBACK = {
     "dep_order": "Definition dep_order_src (odep : bool) (bo : order) (lt gt s1 s2 : bool) : order := dep_decide odep bo lt gt s1 s2.",
     "union_order": "Definition union_order_src (cmp : list order) : order := match cmp with [] => NONE | _ => if existsb ge_same cmp then MORE else LESS end.",
     "inter_order": "Definition inter_order_src (cmp : list order) : order := match cmp with [] => NONE | _ => if existsb le_same cmp then LESS else MORE end.",
+    "edge": "Definition edge_src (o : order) : option bool := edge_dir o.",
+    "level": "Definition level_index_src (nr r : nat) : nat := level_index nr r.",
     "tail": "Definition cls_tail_src (s12 s21 : bool) : order := if s12 && s21 then SAME else if s12 then LESS else if s21 then MORE else NONE.",
 }
 
@@ -618,6 +687,8 @@ def regenerate():
             ("pull", lambda: tr_pull(tm_tree)),
             ("tail", lambda: tr_tail(mro_tree)),
             ("missing", lambda: tr_missing(tm_tree)),
+            ("edge", lambda: tr_edge(mro_tree)),
+            ("level", lambda: tr_level(tm_tree)),
             ("dep_lt", lambda: tr_dep_lt(dep_tree)),
             ("dep_order", lambda: tr_dep_order(dep_tree)),
             ("union_order", lambda: _tr_member_order(ty_tree, "Union", "union_order_src")),
